@@ -488,6 +488,8 @@ def jobs_C10():
             jobs += [(f'{b} {F} operator forms', check_field_ops, (b, F)), (f'{b} {F} sums/products/methods', check_field_iter_and_methods, (b, F))]
     jobs.append(('Fq::power', check_power, ()))
     for F in ('Fq', 'Fr', 'Fp'): jobs.append((f'min {F} limb-level wrapper functions', check_w_u32, (F,)))
+    for b in ('ark', 'min'):
+        for F in ('Fq', 'Fr', 'Fp'): jobs.append((f'{b} {F} wrapper arithmetic wiring', check_w_arith, (b, F)))
     return jobs
 
 def jobs_C11():
@@ -676,4 +678,61 @@ def check_w_u32(F):
                 c = z3.BoolVal(c) if isinstance(c, bool) else c
                 ob('ct_eq is true exactly when all limbs agree', c == z3.And([x == y for x, y in zip(a_l, b_l)]), r['path'], {'fn': 'ct_eq'})
         except Unsupported as e: obs.append(Ob('min:Fq select/ct_eq', 'inconclusive', str(e), 0, 'mirsym'))
+    return obs
+
+# ---------------------------------------------------------------------------------------------- wrapper arithmetic: which kernel, which operand order
+def check_w_arith(build, F):
+    """the wrapper methods add / sub / mul / neg / square / (zero test of) inverse call the intended kernel (fiat function resp.
+    arkworks operator) once, with (self, other) in that order, and return its result unchanged"""
+    items = _items(build); obs = []; f = FN[F]; w = wrapper_of(build)
+    W = rf'^fields::{f}::{w}::wrapper::<impl at [^>]*>::'
+    log = []
+    class Tok:
+        def __init__(s, n): s.n = n
+        def __deepcopy__(s, memo): return s
+        def __repr__(s): return s.n
+    def inner_of(v):
+        while isinstance(v, Agg) and len(v.fields) == 1: v = v.fields[0]
+        return v
+    if build == 'min':
+        def k(name, nin):
+            def m(I, fr, fn, a):
+                ins = [inner_of(I.deref(x)) for x in a[1:1 + nin]]
+                out = Tok(f'{name}_out'); log.append((name, ins, out))
+                o = I.deref(a[0])
+                if isinstance(o, Agg): o.fields[0] = out
+                else: I.store(a[0], out)
+                return models.UNIT
+            return m
+        K = rf'^fields::{f}::u32::fiat::{f}_'
+        fns = [(K + 'add$', k('add', 2)), (K + 'sub$', k('sub', 2)), (K + 'mul$', k('mul', 2)), (K + 'opp$', k('opp', 1)), (K + 'square$', k('square', 1))]
+    else:
+        A = r'ark_ff::Fp<ark_ff::MontBackend<[\w:]+, \d+>, \d+>'
+        def op(name, nin):
+            def m(I, fr, fn, a):
+                ins = [inner_of(D(I, x) if not isinstance(D(I, x), Ref) else I.deref(D(I, x))) for x in a[:nin]]
+                out = Tok(f'{name}_out'); log.append((name, ins, out)); return out
+            return m
+        fns = [(rf'^<{A} as core::ops::Add(<.*>)?>::add$', op('add', 2)), (rf'^<{A} as core::ops::Sub(<.*>)?>::sub$', op('sub', 2)), (rf'^<{A} as core::ops::Mul(<.*>)?>::mul$', op('mul', 2)),
+               (rf'^<{A} as core::ops::Neg>::neg$', op('opp', 1)), (rf'^<{A} as ark_ff::Field>::square$', op('square', 1))]
+    M = models.base_models(extra_fns=fns)
+    M['fns'] = [m for m in M['fns'] if not re.search(r'wrapper::F\[pqr\]::(add|sub|mul|neg|square)\$', m[0])]
+    M['adts'] = []
+    def mk(tag): return Agg(f'fields::{f}::{w}::wrapper::{F}', [Agg('inner', [Tok(tag)])] if build == 'min' else [Tok(tag)])
+    for meth, kern, nin in (('add', 'add', 2), ('sub', 'sub', 2), ('mul', 'mul', 2), ('neg', 'opp', 1), ('square', 'square', 1)):
+        try: it = find_item(items, W + meth + '$')
+        except Unsupported as e: obs.append(Ob(f'{build}:{F} ({w} wrapper) {meth}', 'inconclusive', str(e), 0, 'mirsym')); continue
+        name = f'{build}:{F} ({w} wrapper) {meth} = kernel `{kern}`(self{", other" if nin == 2 else ""})'
+        def body(I, h, it=it, nin=nin):
+            del log[:]
+            a_, b_ = mk('self'), mk('other'); h.locals['a'] = a_; h.locals['b'] = b_
+            args = []
+            for i, (loc, ty) in enumerate(it.params):
+                args.append(Ref(h, 'ab'[i], []) if ty.strip().startswith('&') else h.locals['ab'[i]])
+            return I.call_item(it, args), list(log)
+        for r in _run(items, M, body, name, obs):
+            if 'panic' in r: obs.append(Ob(name, 'violated', 'panics: ' + r['panic'], 0, 'mirsym/EUF', None, {'kind': 'w-arith', 'field': F, 'build': build, 'meth': meth})); continue
+            res, lg = r['result']
+            good = len(lg) == 1 and lg[0][0] == kern and [repr(x) for x in lg[0][1]] == ['self', 'other'][:nin] and inner_of(res) is lg[0][2]
+            obs.append(Ob(name, 'proved' if good else 'violated', f'calls {[(n, [repr(x) for x in i]) for n, i, o in lg]}', 0, 'mirsym/EUF', None, None if good else {'kind': 'w-arith', 'field': F, 'build': build, 'meth': meth}))
     return obs
